@@ -798,6 +798,16 @@ class MarkdownNormalizer(Renderer):
 
     def render_url(self, element: gfm_elements.Url) -> str:
         """For GFM autolink URLs, just output the URL directly."""
+        # For a bare `www.` link Marko puts the `http://` scheme into the destination; what was
+        # written is the text of the link.
+        children = element.children
+        if (
+            element.dest.startswith("http://www.")
+            and len(children) == 1
+            and isinstance(children[0], inline.RawText)
+            and children[0].children.lower().startswith("www.")
+        ):
+            return element.dest[len("http://") :]
         return element.dest
 
     def render_alert(
